@@ -174,19 +174,19 @@ Qed.
 
 Definition body_of (s : setb) : list byte := List.concat (map buf_of (s_recs s)).
 
-Theorem wire_is_frame st s t bytes :
-  Inv s -> st_wf st ->
+Theorem wire_is_frame_m st s t bytes :
+  InvM s -> st_wf st ->
   r_wire (send_set cur st s t) = Some bytes ->
   bytes = frame (x_obs st) (seq_next (x_seq st) s) t (hdr_id s) (body_of s) /\
   20 + blen (body_of s) <= 65535 /\ s_len s = 4 + blen (body_of s).
 Proof.
   intros HI W Hw. pose proof (seq_next_cases st s W) as SN.
-  pose proof (Inv_step s OUpdLen HI) as HI'. destruct (updlen_keeps s) as (KL & KR & KT).
+  pose proof (InvM_step s OUpdLen HI) as HI'. destruct (updlen_keeps s) as (KL & KR & KT).
   pose proof HI as (H4 & _).
   assert (Shape : forall q, create_msg (fst (step s OUpdLen)) (x_obs st) q t = Ok bytes ->
             bytes = frame (x_obs st) q t (hdr_id s) (body_of s) /\
             20 + blen (body_of s) <= 65535 /\ s_len s = 4 + blen (body_of s)).
-  { intros q Ec. destruct (create_msg_ok_shape _ _ _ _ _ HI' Ec) as (Eb & Bl & Mx).
+  { intros q Ec. destruct (create_msg_ok_shape_m _ _ _ _ _ HI' Ec) as (Eb & Bl & Mx).
     rewrite KL in *. rewrite updlen_hdr in Eb by exact H4.
     assert (Er : s_recs (fst (step s OUpdLen)) = s_recs s) by (unfold s_recs; now rewrite KR).
     rewrite Er in Eb. fold (body_of s) in Eb.
@@ -209,15 +209,22 @@ Proof.
   - cbn [r_wire] in Hw. discriminate.
 Qed.
 
+Theorem wire_is_frame st s t bytes :
+  Inv s -> st_wf st ->
+  r_wire (send_set cur st s t) = Some bytes ->
+  bytes = frame (x_obs st) (seq_next (x_seq st) s) t (hdr_id s) (body_of s) /\
+  20 + blen (body_of s) <= 65535 /\ s_len s = 4 + blen (body_of s).
+Proof. intros H. apply wire_is_frame_m. now apply Inv_InvM. Qed.
+
 (* C02, header part, for EVERY transmitted message: version 10, length field = number of
    bytes sent, one set whose length covers the rest, set id = the id PrepareSet wrote *)
-Theorem wellformed_frame widths st s t bytes :
-  Inv s -> st_wf st -> r_wire (send_set cur st s t) = Some bytes ->
+Theorem wellformed_frame_m widths st s t bytes :
+  InvM s -> st_wf st -> r_wire (send_set cur st s t) = Some bytes ->
   rfc_parse widths bytes =
     after_frame widths (x_obs st) (seq_next (x_seq st) s) t (hdr_id s) (body_of s) /\
   blen bytes = 20 + blen (body_of s).
 Proof.
-  intros HI W Hw. destruct (wire_is_frame st s t bytes HI W Hw) as (-> & Hl & _).
+  intros HI W Hw. destruct (wire_is_frame_m st s t bytes HI W Hw) as (-> & Hl & _).
   split; [|apply blen_frame].
   apply rfc_parse_frame; [exact Hl|].
   unfold hdr_id. pose proof (bed_lt (firstn 2 (s_hdr s))) as B.
@@ -225,6 +232,13 @@ Proof.
   assert (256 ^ N.of_nat (length (firstn 2 (s_hdr s))) <= 256 ^ 2) by (apply N.pow_le_mono_r; lia).
   change (256 ^ 2) with 65536 in *. lia.
 Qed.
+
+Theorem wellformed_frame widths st s t bytes :
+  Inv s -> st_wf st -> r_wire (send_set cur st s t) = Some bytes ->
+  rfc_parse widths bytes =
+    after_frame widths (x_obs st) (seq_next (x_seq st) s) t (hdr_id s) (body_of s) /\
+  blen bytes = 20 + blen (body_of s).
+Proof. intros H. apply wellformed_frame_m. now apply Inv_InvM. Qed.
 
 (* ---- template sets ---- *)
 (* every template record the builder produces has the buffer RFC 7011 3.4.1 describes *)
@@ -297,6 +311,32 @@ Definition tpl_rec_ok (r : rec) : Prop :=
 Definition expected_templates (s : setb) : list (N * list fspec) :=
   map (fun r => (rec_tid r, map (fun ev => rfc_fspec (fst ev)) (rec_els r))) (s_recs s).
 
+(* for any set state (header of 4 bytes, length bookkeeping) whose template records have the
+   builder's buffers - in particular after the element objects were changed *)
+Theorem wellformed_template_set_s widths st s t bytes :
+  InvM s -> (forall r, In r (s_recs s) -> tshape r) ->
+  st_wf st -> r_wire (send_set cur st s t) = Some bytes ->
+  hdr_id s = 2 -> Forall tpl_rec_ok (s_recs s) ->
+  rfc_parse widths bytes =
+    Some (mkWM 10 (blen bytes) (t mod 2 ^ 32) (seq_next (x_seq st) s mod 2 ^ 32) (x_obs st mod 2 ^ 32)
+               2 (blen bytes - 16) (WTemplates (expected_templates s))).
+Proof.
+  intros HI TS W Hw Hid F.
+  destruct (wellformed_frame_m widths st s t bytes HI W Hw) as (P & L).
+  rewrite P. unfold after_frame. rewrite Hid. cbn [N.eqb Pos.eqb].
+  assert (B : body_of s = List.concat (map (fun p => tpl_buf (fst p) (snd p)) (map (fun r => (rec_tid r, rec_els r)) (s_recs s)))).
+  { unfold body_of. rewrite map_map. f_equal. apply map_ext_in. intros r Hr. cbn [fst snd].
+    rewrite Forall_forall in F. destruct (F r Hr) as (Hd & _).
+    pose proof (TS r Hr) as T. destruct r; cbn in Hd; [|discriminate].
+    cbn [tshape] in T. unfold buf_of. cbn. exact T. }
+  rewrite B. rewrite parse_trecs_spec.
+  - cbn [obnd]. rewrite L, B. unfold expected_templates. rewrite !map_map. cbn [fst snd].
+    f_equal. f_equal; try reflexivity; lia.
+  - pose proof (tpl_concat_len (map (fun r => (rec_tid r, rec_els r)) (s_recs s))). lia.
+  - apply Forall_forall. intros p Hp. apply in_map_iff in Hp as (r & <- & Hr). cbn [fst snd].
+    rewrite Forall_forall in F. destruct (F r Hr) as (_ & A & Bn & C). auto.
+Qed.
+
 Theorem wellformed_template_set widths st ops t bytes :
   let s := set_of ops in
   st_wf st -> r_wire (send_set cur st s t) = Some bytes ->
@@ -305,18 +345,7 @@ Theorem wellformed_template_set widths st ops t bytes :
     Some (mkWM 10 (blen bytes) (t mod 2 ^ 32) (seq_next (x_seq st) s mod 2 ^ 32) (x_obs st mod 2 ^ 32)
                2 (blen bytes - 16) (WTemplates (expected_templates s))).
 Proof.
-  intros s W Hw Hid F.
-  destruct (wellformed_frame widths st s t bytes (Inv_set_of ops) W Hw) as (P & L).
-  rewrite P. unfold after_frame. rewrite Hid. cbn [N.eqb Pos.eqb].
-  assert (B : body_of s = List.concat (map (fun p => tpl_buf (fst p) (snd p)) (map (fun r => (rec_tid r, rec_els r)) (s_recs s)))).
-  { unfold body_of. rewrite map_map. f_equal. apply map_ext_in. intros r Hr. cbn [fst snd].
-    rewrite Forall_forall in F. destruct (F r Hr) as (Hd & _).
-    pose proof (tshape_set_of ops r Hr) as T. destruct r; cbn in Hd; [|discriminate].
-    cbn [tshape] in T. unfold buf_of. cbn. exact T. }
-  rewrite B. rewrite parse_trecs_spec.
-  - cbn [obnd]. rewrite L, B. unfold expected_templates. rewrite !map_map. cbn [fst snd].
-    f_equal. f_equal; try reflexivity; lia.
-  - pose proof (tpl_concat_len (map (fun r => (rec_tid r, rec_els r)) (s_recs s))). lia.
-  - apply Forall_forall. intros p Hp. apply in_map_iff in Hp as (r & <- & Hr). cbn [fst snd].
-    rewrite Forall_forall in F. destruct (F r Hr) as (_ & A & Bn & C). auto.
+  intros s. apply wellformed_template_set_s.
+  - apply Inv_InvM, Inv_set_of.
+  - apply tshape_set_of.
 Qed.
